@@ -39,7 +39,8 @@ func oracleSAN(id string) string {
 		}
 		return "I:" + hex.EncodeToString(b)
 	}
-	if strings.HasPrefix(id, "spiffe://") {
+	// a name with the spiffe scheme is a URI; URI schemes are case-insensitive (RFC 3986 3.1)
+	if len(id) >= 9 && strings.EqualFold(id[:9], "spiffe://") {
 		return "U:" + wire.Enc(id)
 	}
 	return "D:" + wire.Enc(id)
